@@ -7,6 +7,7 @@ import (
 	"sort"
 
 	"github.com/nspcc-dev/neo-go/pkg/core/native/nativehashes"
+	"github.com/nspcc-dev/neo-go/pkg/encoding/base58"
 	"github.com/nspcc-dev/neo-go/pkg/io"
 	"github.com/nspcc-dev/neo-go/pkg/smartcontract"
 	"github.com/nspcc-dev/neo-go/pkg/smartcontract/callflag"
@@ -84,6 +85,15 @@ func (w *world) blsFrag(b []byte) frag {
 var payProg = []any{[]any{chainx.OpNotify, 7}, []any{chainx.OpPut, []byte("paid"), []byte("1")}}
 
 func (w *world) menu(t smartcontract.ParamType) []argv {
+	if m, ok := w.menus[t]; ok {
+		return m
+	}
+	m := w.menu0(t)
+	w.menus[t] = m
+	return m
+}
+
+func (w *world) menu0(t smartcontract.ParamType) []argv {
 	h := int64(w.n.Height())
 	acc := func(i int) util.Uint160 { return chainx.Acc(i).ScriptHash() }
 	pub := func(i int) []byte { return chainx.Acc(i).PublicKey().Bytes() }
@@ -91,15 +101,16 @@ func (w *world) menu(t smartcontract.ParamType) []argv {
 	sig := chainx.Acc(1).PrivateKey().Sign([]byte("abc"))
 	switch t {
 	case smartcontract.Hash160Type:
-		return []argv{{"acc1", acc(1)}, {"acc2", acc(2)}, {"UA", w.UA}, {"UB", w.UB}, {"absent", absentHash}, {"acc5blocked", acc(5)}, {"GAS", nativehashes.GasToken}}
+		return []argv{{"acc1", acc(1)}, {"acc2", acc(2)}, {"UA", w.UA}, {"UB", w.UB}, {"absent", absentHash}, {"acc5blocked", acc(5)}, {"GAS", nativehashes.GasToken},
+			{"Notary", nativehashes.Notary}, {"NEO", nativehashes.NeoToken}}
 	case smartcontract.IntegerType:
 		return []argv{{"1", 1}, {"0", 0}, {"-1", -1}, {"2", 2}, {"8", 8}, {"10", 10}, {"16", 16}, {"23", 23}, {"32", 32}, {"100", 100}, {"1000", 1000},
-			{"100000", 100000}, {"10000000", 10000000}, {"H+1", int(h + 1)}, {"2^62", big.NewInt(1 << 62)}}
+			{"100000", 100000}, {"10000000", 10000000}, {"H+1", int(h + 1)}, {"MTB-1", int(w.n.BC.GetMaxTraceableBlocks()) - 1}, {"2^62", big.NewInt(1 << 62)}}
 	case smartcontract.StringType:
-		return []argv{{"abc", "abc"}, {"empty", ""}, {"run", "run"}, {"other", "other"}, {"10", "10"}, {"1f", "1f"}, {"YWJj", "YWJj"}, {"url", "https://x.y/z"}, {"json", "[1,2]"}, {"cb", "cb"}}
+		return []argv{{"abc", "abc"}, {"empty", ""}, {"run", "run"}, {"other", "other"}, {"10", "10"}, {"1f", "1f"}, {"YWJj", "YWJj"}, {"url", "https://x.y/z"}, {"json", "[1,2]"}, {"cb", "cb"}, {"base58check", base58.CheckEncode([]byte("abc"))}}
 	case smartcontract.ByteArrayType:
-		return []argv{{"abc", []byte("abc")}, {"empty", []byte{}}, {"idx1", []byte{1}}, {"blockhash", w.blkHash.BytesBE()}, {"txhash", w.txHash.BytesBE()},
-			{"serialized", ser}, {"json", []byte("[1]")}, {"pub1", pub(1)}, {"sig", sig}, {"nef", w.nefBytes}, {"manifestNew", w.mfNew}, {"manifestUA", w.mfUA}}
+		return []argv{{"abc", []byte("abc")}, {"pub1", pub(1)}, {"sig", sig}, {"empty", []byte{}}, {"idx1", []byte{1}}, {"blockhash", w.blkHash.BytesBE()}, {"txhash", w.txHash.BytesBE()},
+			{"serialized", ser}, {"json", []byte("[1]")}, {"nef", w.nefBytes}, {"manifestNew", w.mfNew}, {"manifestUA", w.mfUA}, {"blsG1", blsG1}, {"scalar32", append([]byte{3}, make([]byte, 31)...)}}
 	case smartcontract.Hash256Type:
 		return []argv{{"tx", w.txHash}, {"block", w.blkHash}, {"absent", util.Uint256{9, 9, 9}}}
 	case smartcontract.PublicKeyType:
